@@ -166,6 +166,19 @@ func (s *ByteStealer) Write(p []byte) (n int, err error) {
 }
 
 func StealBytes(reader io.WriterTo) ([]byte, error) {
+	switch reader.(type) {
+	case *bytes.Reader, *strings.Reader, *bytes.Buffer:
+		// these hand over their own storage in a single Write: safe to keep without copying
+	default:
+		// any other WriterTo (bufio.Reader, io.MultiReader, ...) may write several times from a
+		// scratch buffer it reuses; an alias of the first chunk would be overwritten.
+		var buffer bytes.Buffer
+		if _, err := reader.WriteTo(&buffer); nil != err {
+			return nil, err
+		}
+		return buffer.Bytes(), nil
+	}
+
 	var stealer ByteStealer
 	n, err := reader.WriteTo(&stealer)
 	if nil != err {
